@@ -71,6 +71,8 @@ func TestVerifSRExec(t *testing.T) {
 
 func vfRunSR(t *testing.T, sc *vfSRScript, out *vfWriter) {
 	t.Helper()
+	kept := out.NewKept()
+	defer kept.Flush()
 	var clock atomic.Int64
 	ticker := &vfSRTicker{c: make(chan time.Time), idle: make(chan struct{}, 4)}
 	opts := []SenderOption{
@@ -164,29 +166,33 @@ func vfRunSR(t *testing.T, sc *vfSRScript, out *vfWriter) {
 			got := written
 			written = nil
 			mu.Unlock()
-			blocks := []vfM{}
-			for _, p := range got {
-				sr, ok := p.(*rtcp.SenderReport)
-				if !ok {
-					blocks = append(blocks, vfM{"s": 0, "pkts": 0, "oct": []uint32{0, 0}, "rtp": 0, "sec": 0, "frac": 0, "foreign": true})
+			render := func() []vfM {
+				blocks := []vfM{}
+				for _, p := range got {
+					sr, ok := p.(*rtcp.SenderReport)
+					if !ok {
+						blocks = append(blocks, vfM{"s": 0, "pkts": 0, "oct": []uint32{0, 0}, "rtp": 0, "sec": 0, "frac": 0, "foreign": true})
 
-					continue
+						continue
+					}
+					pk := sr.PacketCount
+					if pk > 0x7FFFFFFF { // TLC integers are 32-bit signed; no run sends that many packets
+						pk = 0x7FFFFFFF
+					}
+					sec := int64(sr.NTPTime>>32) - epochNTP //nolint:gosec // G115
+					if sec > 0x7FFFFFFF || sec < -0x7FFFFFFF {
+						sec = 0x7FFFFFFF
+					}
+					blocks = append(blocks, vfM{
+						"s": sr.SSRC, "pkts": pk, "oct": []uint32{sr.OctetCount >> 16, sr.OctetCount & 0xFFFF},
+						"rtp": int32(sr.RTPTime - base), //nolint:gosec // signed residue relative to the base
+						"sec": sec, "frac": (sr.NTPTime & 0xFFFFFFFF) >> 12,
+					})
 				}
-				pk := sr.PacketCount
-				if pk > 0x7FFFFFFF { // TLC integers are 32-bit signed; no run sends that many packets
-					pk = 0x7FFFFFFF
-				}
-				sec := int64(sr.NTPTime>>32) - epochNTP //nolint:gosec // G115
-				if sec > 0x7FFFFFFF || sec < -0x7FFFFFFF {
-					sec = 0x7FFFFFFF
-				}
-				blocks = append(blocks, vfM{
-					"s": sr.SSRC, "pkts": pk, "oct": []uint32{sr.OctetCount >> 16, sr.OctetCount & 0xFFFF},
-					"rtp": int32(sr.RTPTime - base), //nolint:gosec // signed residue relative to the base
-					"sec": sec, "frac": (sr.NTPTime & 0xFFFFFFFF) >> 12,
-				})
+				return blocks
 			}
-			out.Emit(vfM{"a": "report", "t": st.T, "out": blocks})
+			out.Emit(vfM{"a": "report", "t": st.T, "out": render()})
+			kept.Keep(func() any { return render() })
 		default:
 			t.Fatalf("VERIF-INFRA unknown action %q", st.A)
 		}
